@@ -342,6 +342,8 @@ def run(ctx):
     ctx.ob("R11.6", "format_node:ignored-nodes-keep-text", ok, "a node with ignored formatting is emitted through get_text", fn.where())
     _rewriters(ctx, F)
     _comma_symmetry(ctx, F, sst, kind_names)
+    from . import glue
+    glue.run(ctx, F)
     _controls(ctx, F, sst)
 
 
